@@ -51,8 +51,13 @@ class PestGrammarError(Exception):
 
     def _error_context(self, text: str, index: int) -> tuple[int, int, str, str, str]:
         lines = text.splitlines(keepends=True)
+        if not lines or lines[-1].splitlines()[0] != lines[-1]:
+            # Empty text, or the text ends with a line break: an index at the end
+            # of the text is on a last, empty line.
+            lines.append("")
+
         cumulative_length = 0
-        target_line_index = -1
+        target_line_index = len(lines) - 1
 
         for i, line in enumerate(lines):
             cumulative_length += len(line)
@@ -60,13 +65,11 @@ class PestGrammarError(Exception):
                 target_line_index = i
                 break
 
-        if target_line_index == -1:
-            raise ValueError("index is out of bounds for the given string")
-
         # Line number (1-based)
         line_number = target_line_index + 1
         # Column number within the line
-        column_number = index - (cumulative_length - len(lines[target_line_index]))
+        line_start = sum(len(line) for line in lines[:target_line_index])
+        column_number = max(index, 0) - line_start
 
         previous_line = (
             lines[target_line_index - 1].rstrip() if target_line_index > 0 else ""
